@@ -376,3 +376,8 @@ def _chained(v):
 
 
 CLASSIFIERS = {"chained_features_freed": _chained}
+
+
+def waivers(counters):
+    # the tensor hooks decide; the recorders on torch.vmap / torch.autograd.grad only corroborate
+    return {k for k in ("vmap_recorder_hits", "grad_recorder_hits") if counters.get(k, 0) == 0}
